@@ -89,6 +89,7 @@ func run(t *rapid.T, r *rec.Recorder) {
 	m.UseCallback = true // incl. the callback contract that reverts until it is funded
 	acts := m.BaseActions()
 	acts["fundMoody"] = m.Wrap(m.ActFundMoody)
+	acts["toggleRoundTrip"] = m.Wrap(m.ActToggleRoundTrip)
 	recvFresh := func(t *rapid.T) {
 		m.T = t
 		type snap struct{ u0, u1 *big.Int }
